@@ -899,7 +899,7 @@ func c35(r *vkit.Run) {
 		r.SetMinDistinct(0)
 		return
 	}
-	n := envN(r.N(6000, 120000))
+	n := envN(r.N(6000, 80000))
 	vkit.Parallel(n, 64, func(i int) {
 		cs := c35Gen(r, i)
 		out := c35RunCase(r, cs)
